@@ -134,15 +134,27 @@ def delimShapeB (cs : List ANode) : Bool :=
       | none => false)
   | [] => false
 
-/-- Shape of the arguments of a call in math: `(`, content that neither starts nor ends with white space, `)`. -/
+def isSpK (c : ANode) : Bool := c.kind == .space
+/-- The trailing white space of a list, and the list without it. -/
+def trailSp (l : List ANode) : List ANode := (l.reverse.takeWhile isSpK).reverse
+def dropTrail (l : List ANode) : List ANode := (l.reverse.dropWhile isSpK).reverse
+
+theorem dropTrail_append_trailSp (l : List ANode) : dropTrail l ++ trailSp l = l := by
+  unfold dropTrail trailSp
+  rw [← List.reverse_append, List.takeWhile_append_dropWhile, List.reverse_reverse]
+
+/-- Shape of the arguments of a call in math: `(`, white space, content, white space, `)`. -/
 def mathArgsShapeB (acs : List ANode) : Bool :=
   match acs with
   | lp :: rest =>
     lp.kind == .leftParen &&
     (match rest.getLast? with
       | some rp => rp.kind == .rightParen &&
-          (rest.dropLast.head?.map (fun c => !(c.kind == .leftParen || c.kind == .space))).getD true &&
-          (rest.dropLast.getLast?.map (fun c => !(c.kind == .rightParen || c.kind == .space))).getD true
+          (rest.dropLast.takeWhile isSpK).all isSpK &&
+          (trailSp (rest.dropLast.dropWhile isSpK)).all isSpK &&
+          ((dropTrail (rest.dropLast.dropWhile isSpK)).head?.map (fun c => !(c.kind == .leftParen || c.kind == .space))).getD true &&
+          ((dropTrail (rest.dropLast.dropWhile isSpK)).getLast?.map (fun c => !(c.kind == .rightParen || c.kind == .space))).getD true &&
+          (!(dropTrail (rest.dropLast.dropWhile isSpK)).isEmpty || (trailSp (rest.dropLast.dropWhile isSpK)).isEmpty)
       | none => false)
   | [] => false
 
@@ -154,6 +166,11 @@ def mathCallShapeB (cs : List ANode) : Bool :=
         | .inner .args acs _ => mathArgsShapeB acs
         | _ => false)
   | _ => false
+
+/-- Shape of a row of two-dimensional math arguments: an array without parentheses. -/
+def rowShapeB (cs : List ANode) : Bool :=
+  !((cs.head?.map (·.kind == .leftParen)).getD false) &&
+  cs.all (fun x => isExpr x || isCommentKind x.kind || isIgnorable x)
 
 def Kind.isMathFlow : Kind → Bool
   | .mathAttach | .mathRoot | .mathFrac => true
@@ -180,7 +197,7 @@ def inFragM : ANode → Bool
   | .inner k cs _ =>
     if k == .funcCall then mathCallShapeB cs && inFragMCallL cs else
     (k.isMathFlow || k == .math || (k == .mathPrimes && cs.all (fun c => c.kind == .prime)) ||
-      (k == .mathDelimited && delimShapeB cs)) && inFragMS false cs
+      (k == .mathDelimited && delimShapeB cs) || (k == .array && rowShapeB cs)) && inFragMS false cs
 /-- The children of a call in math mode: the callee, and the arguments (a math sequence). -/
 def inFragMCallL : List ANode → Bool
   | [] => true
@@ -203,7 +220,7 @@ theorem inFragM_inner_call (cs : List ANode) (a : Attrs) :
 theorem inFragM_inner_ne (k : Kind) (cs : List ANode) (a : Attrs) (hk : k ≠ .funcCall) :
     inFragM (.inner k cs a) =
       ((k.isMathFlow || k == .math || (k == .mathPrimes && cs.all (fun c => c.kind == .prime)) ||
-        (k == .mathDelimited && delimShapeB cs)) && inFragMS false cs) := by
+        (k == .mathDelimited && delimShapeB cs) || (k == .array && rowShapeB cs)) && inFragMS false cs) := by
   have : (k == Kind.funcCall) = false := by simpa using hk
   simp only [inFragM, this, Bool.false_eq_true, ↓reduceIte]
 
@@ -1503,27 +1520,43 @@ theorem convExprM_frag (e : Env) (r : Rec) (hr : RecOK r Q) (hrM : RecOKM r QM) 
               cases hgl : arest.getLast? with
               | none => simp [hgl] at hargsh
               | some rp =>
-                simp only [hgl, Bool.and_eq_true, beq_iff_eq] at hargsh
-                obtain ⟨hlpk, ⟨hrpk, hheadB⟩, hlastB⟩ := hargsh
+                simp only [hgl, Bool.and_eq_true, beq_iff_eq, Bool.or_eq_true, Bool.not_eq_true', List.isEmpty_iff,
+                  List.isEmpty_eq_false_iff] at hargsh
+                obtain ⟨hlpk, ⟨⟨⟨⟨hrpk, hsp1⟩, hsp2⟩, hheadB⟩, hlastB⟩, hemp⟩ := hargsh
                 have hrest := dropLast_getLast arest rp hgl
+                have hinner : arest.dropLast = arest.dropLast.takeWhile isSpK ++
+                    (dropTrail (arest.dropLast.dropWhile isSpK) ++ trailSp (arest.dropLast.dropWhile isSpK)) := by
+                  rw [dropTrail_append_trailSp, List.takeWhile_append_dropWhile]
+                generalize hsp1d : arest.dropLast.takeWhile isSpK = sp1 at hinner hsp1
+                generalize hcored : dropTrail (arest.dropLast.dropWhile isSpK) = core at hinner hheadB hlastB hemp
+                generalize hsp2d : trailSp (arest.dropLast.dropWhile isSpK) = sp2 at hinner hsp2 hemp
+                have hacs : lp :: arest = lp :: (sp1 ++ (core ++ (sp2 ++ [rp]))) := by
+                  rw [hrest, hinner]; simp
                 have hseqA := inFragMS_seq (lp :: arest) false hqcallee.2
                 have hlexA := inFragMS_lex false (lp :: arest) hqcallee.2
-                rw [hrest] at hseqA hlexA ⊢
+                rw [hacs] at hseqA hlexA ⊢
+                have hs1 : ∀ x ∈ sp1, x.kind = .space := fun x hx => by
+                  have := List.all_eq_true.mp hsp1 x hx; simpa [isSpK] using this
+                have hs2 : ∀ x ∈ sp2, x.kind = .space := fun x hx => by
+                  have := List.all_eq_true.mp hsp2 x hx; simpa [isSpK] using this
                 simp only [MathSeqOK] at hseqA
                 have hlpnh : (lp.kind == .hash) = false := by rw [hlpk]; rfl
                 rw [hlpnh] at hseqA
-                have hmidseq := mathSeq_prefix arest.dropLast [rp] false hseqA.2.2
-                simp only [ANode.tokensAreLeavesL, Bool.and_eq_true] at hlexA
-                have hlexrp : ANode.tokensAreLeaves rp = true :=
-                  tokensAreLeavesL_mem hlexA.2 (by simp)
+                have hds := mathSeq_drop_spaces sp1 _ hs1 false hseqA.2.2
+                simp only [ite_self] at hds
+                have hmidseq := mathSeq_prefix core (sp2 ++ [rp]) false hds
                 refine convFuncCallM_carries e r hrM ctx hm callee _ a hd' hxc hnf hqcallee.1 rfl ?_
-                refine convArgsInMath_carries e r hr hrM ctx hm lp rp arest.dropLast aa hlpk hrpk hlexA.1 hlexrp ?_ ?_ hmidseq
+                refine convArgsInMath_carries_sp e r hr hrM ctx hm lp rp sp1 core sp2 aa hlpk hrpk hlexA hs1 hs2 ?_ ?_ ?_ hmidseq
                 · intro c hc
                   rw [hc] at hheadB
                   simpa using hheadB
                 · intro c hc
                   rw [hc] at hlastB
                   simpa using hlastB
+                · intro hc
+                  rcases hemp with h | h
+                  · exact absurd hc h
+                  · exact h
           · exfalso
             cases ka <;> first | exact absurd rfl hka | simp at hargsh
     rw [inFragM_inner_ne k cs a hcallk] at hq
@@ -1553,6 +1586,30 @@ theorem convExprM_frag (e : Env) (r : Rec) (hr : RecOK r Q) (hrM : RecOKM r QM) 
       · subst hmk
         show Post (r.math ctx _) _
         exact hrM.math ctx _ hm rfl (by simp only [QM]; rw [inFragM_inner_ne _ _ _ (by decide)]; simp only [Bool.and_eq_true]; exact hq)
+      by_cases hark : k = .array
+      · subst hark
+        have hsh : rowShapeB cs = true := by simpa [Kind.isMathFlow] using h1
+        simp only [rowShapeB, Bool.and_eq_true, Bool.not_eq_true'] at hsh
+        show Post (convArray e r ctx _) _
+        have hnh : ∀ c ∈ cs, (c.kind == .hash) = false := by
+          intro c hc
+          have := List.all_eq_true.mp hsh.2 c hc
+          simp only [Bool.or_eq_true] at this
+          rcases this with (hk | hk) | hk
+          · exact expr_not_hash hk
+          · exact comment_not_hash _ hk
+          · unfold isIgnorable at hk
+            cases hkk : c.kind <;> simp_all [Kind.fixedText]
+        have hall := inFragMS_nohash _ hq.2 hnh
+        refine convArrayM_carries e r hrM ctx hm cs a hd' hsh.1 ?_
+        intro x hx
+        refine ⟨(hall x hx).1, ?_⟩
+        have := List.all_eq_true.mp hsh.2 x hx
+        simp only [Bool.or_eq_true] at this
+        rcases this with (hk | hk) | hk
+        · exact Or.inl ⟨hk, (hall x hx).2 hk⟩
+        · exact Or.inr (Or.inl hk)
+        · exact Or.inr (Or.inr hk)
       by_cases hdk : k = .mathDelimited
       · subst hdk
         have hsh : delimShapeB cs = true := by simpa [Kind.isMathFlow] using h1
